@@ -47,11 +47,11 @@ def gen(rng, tier):
 
 TECHNIQUE = "Lean 4 invariant + progress theorems over the lock-protocol LTS (no help from the environment) + scheduled real executions with deadlock detection"
 LEVEL_TEXT = ("Machine-checked over the same LTS as C04: no lost wake-up (a user that sent its datagram and waits for stepMtx implies the pipe "
-              "is readable while the driver is before or in poll), bounded hand-over (while a user holds pauseMtx the driver cannot begin "
-              "another step), no deadlock (in every reachable state with a management call or Stop under way some thread can move WITHOUT "
+              "is readable while the driver is before or in poll), bounded hand-over (along every execution fragment during which a user holds pauseMtx the driver begins at most "
+              "ONE step: handover_at_most_one_step, by a potential argument), no deadlock (in every reachable state with a management call or Stop under way some thread can move WITHOUT "
               "any socket event, timeout or new call), driver progress. Tied to /repo by scheduled executions of silent scenarios "
               "(unlimited timeout, no traffic) in which the scheduler reports 'all parked, none enabled' as a deadlock with the schedule as "
               "replay, and by the direct check that the driver begins at most one step while a caller waits after its datagram.")
 LEVEL_NOTE = ("Trusted: as C04, plus A-PIPE (a datagram sent to the driver's own pipe stays readable until received) and fair scheduling of "
-              "the only enabled thread by the OS. Termination of a call under an adversarial but fair scheduler (bounded bypass) is argued "
-              "in DESIGN.md from no_deadlock + bounded_handover; it is not a separate theorem.")
+              "the only enabled thread by the OS. Other user threads may overtake a waiting caller on stepMtx (pthread mutexes are not fair): "
+              "the bound is in driver steps, as the property states, not in other callers' actions.")
